@@ -23,6 +23,9 @@ func TestReplayDebug(t *testing.T) {
 	DebugSteps = nil
 	if n := len(steps); n > 0 {
 		from := n - 40
+		if os.Getenv("VERIF_DEBUG") == "all" {
+			from = 0
+		}
 		if from < 0 {
 			from = 0
 		}
